@@ -61,7 +61,26 @@ def check_case(case):
         s = build(spec)
         quiet_call(s.solve)
         victim = case["delete"]
-        if case.get("rename"):
+        if case.get("remux"):
+            from ..muxsys import apply_remux
+            spec = apply_remux(s, spec)
+        elif case.get("handover"):
+            # the mux was attached by RAIL names; afterwards the rail of its first input is renamed and the old rail name is given to
+            # another component that does not feed the mux: the mux must keep its inputs
+            import copy
+            from ..sysmodel import make_comp
+            spec = copy.deepcopy(spec)
+            first = [c for c in spec["comps"] if c["n"] == victim][0]
+            other = [c for c in spec["comps"] if c["n"] == "RB"][0]
+            old = first["r"]
+            s.change_comp(first["n"], comp=make_comp(first), rail="renamed_" + old)
+            if first.get("pc") is not None:
+                s.set_comp_phases(first["n"], copy.deepcopy(first["pc"]))
+            s.change_comp("RB", comp=make_comp(other), rail=old)
+            first["r"], other["r"] = "renamed_" + old, old
+            for c in spec["comps"]:
+                c["p"] = [first["n"] if q == old else q for q in c["p"]]
+        elif case.get("rename"):
             # the endpoint of one input is replaced by an identical component with a NEW name: it must keep its slot in the priority list
             import copy
             from ..sysmodel import make_comp
@@ -147,6 +166,11 @@ def gen_edits(tier, pal):
             for j, (t, st) in enumerate(inputs, 1):   # rename the endpoint of input j
                 endp = {"S": "S%d", "SC": "C%d", "SH": "P%d", "SL": "G%d"}[t] % j
                 yield dict(inputs=[list(x) for x in inputs], pal=pal, rs_list=True, rails=False, by_rail=False, pol=1, delete=endp, rename=True)
+            yield dict(inputs=[list(x) for x in inputs], pal=pal, rs_list=False, rails=False, by_rail=False, pol=1, delete="M", remux=True)
+            t0 = inputs[0][0]
+            end0 = {"S": "S1", "SC": "C1", "SH": "P1", "SL": "G1"}[t0]
+            if t0 != "SL":
+                yield dict(inputs=[list(x) for x in inputs], pal=pal, rs_list=True, rails=True, by_rail=True, pol=1, delete=end0, handover=True)
             for order in itertools.permutations(range(k)):
                 if list(order) != list(range(k)):
                     yield dict(inputs=[list(x) for x in inputs], pal=pal, rs_list=True, rails=False, by_rail=False, pol=1, order=list(order), reload=True)
